@@ -160,3 +160,60 @@ Definition api_evpn_in_range (x : api_evpn) : Prop :=
   | AEvImet d etag _ => api_rd_in_range d /\ u32_ok etag
   | AEvEs d esi _ => api_rd_in_range d /\ api_esi_in_range esi
   end.
+
+(* Flowspec NLRI (RFC 8955 s4, RFC 8956): what packet/src/flowspec.rs decodes.  A prefix
+   component is a prefix of the family; an operator list is non-empty, its operators carry
+   no length bits (they are recomputed from the value), the end-of-list bit is on the last
+   operator and only there, values fit eight octets; the components fill at most the 4095
+   octets the 12-bit length field can express. *)
+Definition wf_op_bits (last : bool) (b : N) : Prop :=
+  b < 256 /\ (b / 16) mod 4 = 0 /\ b / 128 = (if last then 1 else 0).
+
+Fixpoint wf_ops (ops : list (N * N)) : Prop :=
+  match ops with
+  | [] => False
+  | [(b, v)] => wf_op_bits true b /\ v < 2 ^ 64
+  | (b, v) :: r => wf_op_bits false b /\ v < 2 ^ 64 /\ wf_ops r
+  end.
+
+Definition wf_fs_comp (v6 : bool) (c : fs_comp) : Prop :=
+  match c with
+  | FsPfx t a m off =>
+      (t = 1 \/ t = 2) /\ wf_prefix (if v6 then 16 else 4) a m /\ (if v6 then off < 256 else off = 0)
+  | FsOps t ops => 3 <= t <= (if v6 then 13 else 12) /\ wf_ops ops
+  end.
+
+Definition wf_fs (n : fs_nlri) : Prop :=
+  match n with
+  | FsN v6 d comps =>
+      Forall (wf_fs_comp v6) comps
+      /\ match d with Some d' => wf_rd d' | None => True end
+      /\ fs_body_len n <= 4095
+  end.
+
+Definition api_fs_rule_in_range (r : api_fs_rule) : Prop :=
+  match r with FRComp _ items => Forall (fun o => snd o < 2 ^ 64) items | _ => True end.
+Definition api_fs_in_range (x : api_fs) : Prop :=
+  match x with
+  | AFs rules => Forall api_fs_rule_in_range rules
+  | AFsVpn d rules => api_rd_in_range d /\ Forall api_fs_rule_in_range rules
+  end.
+
+(* SR Policy NLRI (draft-ietf-idr-sr-policy-safi s2.1) and Route Target Constraint NLRI (RFC 4684 s4) *)
+Definition wf_srp (n : srp) : Prop :=
+  match n with SrP v6 d c e => u32_ok d /\ u32_ok c /\ e < 256 ^ (if v6 then 16 else 4) end.
+
+Definition wf_rtc (n : rtc) : Prop :=
+  match n with
+  | RtcWild => True
+  | RtcAs a => u32_ok a
+  | RtcExact a rt => u32_ok a /\ length rt = 8%nat /\ bytes_ok rt
+  end.
+
+(* the class of the open finding C17-rtc: what api.RouteTargetMembershipNLRI cannot express *)
+Definition Known_C17_rtc (n : rtc) : Prop :=
+  match n with
+  | RtcWild => False
+  | RtcAs a => a = 0
+  | RtcExact _ rt => match rt with t :: s :: _ => 2 < t \/ s <> 2 | _ => True end
+  end.
